@@ -296,6 +296,10 @@ def gen_purity_world(rw, rv, knobs):
         ds_masked = R.add("ds", {"kind": "derive", "src": ref(ds0), "q": {"t": "call", "name": "apply_mask", "kw": {"mask": ref(m0)}}})
         if rw.random() < 0.3:
             R.add("cv", {"kind": "convolver", "mask": ref(m0), "kernel": ref(psf)})
+        if rw.random() < 0.3:
+            # a noise-scaled version of the dataset (a region down-weighted before fitting), derived from the unmasked or the masked one
+            R.add("ds", {"kind": "derive", "src": ref(ds0 if rw.random() < 0.6 else ds_masked),
+                         "q": {"t": "call", "name": "apply_noise_scaling", "kw": {"mask": ref(m0), "noise_value": rw.choice([1.0e8, 50.0])}}})
         if rw.random() < 0.35:
             # an over-sampling request the caller keeps and hands to one dataset after another; slots left out fall back to the dataset's
             slots = {k: rw.randrange(1, 4) for k in rw.sample(["uniform", "non_uniform", "pixelization"], rw.randrange(1, 3))}
